@@ -33,7 +33,7 @@ func ctxWalk(t *Term, inh string, ro bool, m map[int]string) {
 	m[t.ID] = own
 	for i, x := range t.Xs {
 		r := ro
-		if t.K == "struct" && t.Ro[i] {
+		if (t.K == "struct" && t.Ro[i]) || t.K == "rvaluero" {
 			r = true
 		}
 		ctxWalk(x, own, r, m)
@@ -210,7 +210,7 @@ func pubWalk(t *Term, inh string, ro bool, pub map[int]bool) {
 	}
 	for i, x := range t.Xs {
 		r := ro
-		if t.K == "struct" && t.Ro[i] {
+		if (t.K == "struct" && t.Ro[i]) || t.K == "rvaluero" {
 			r = true
 		}
 		pubWalk(x, own, r, pub)
